@@ -79,7 +79,7 @@ pub fn gen_c15(rng: &mut Rng, run_seed: u64, miri: bool) -> Program {
         }
     }
     // attempts on the panicked object, by the same thread that holds the older future (phase 1 is a continuation of thread 0)
-    let mut kinds: Vec<u8> = vec![0, 1, 2, 3, 4, 5];
+    let mut kinds: Vec<u8> = if cfg!(feature = "hooks") { vec![0, 1, 2, 3, 4, 5, 6, 7, 8, 9, 10, 11] } else { vec![0, 1, 2, 3, 4, 5, 10, 11] };
     rng.shuffle(&mut kinds);
     kinds.truncate(rng.range(2, 6) as usize);
     let mut attempts: Vec<TAct> = kinds.iter().map(|k| TAct::Attempt(*k, 0)).collect();
